@@ -19,5 +19,20 @@ claims.
 body = open(os.path.join(ROOT, "tools", "design13.md")).read()
 table = subprocess.run(["python3", os.path.join(ROOT, "tools", "seedtable.py")], stdout=subprocess.PIPE, text=True).stdout
 body = body.replace("@@SEEDTABLE@@", table)
+import glob, json
+rows = []
+for f in sorted(glob.glob(os.path.join(ROOT, "harmless", "*", "*", "result.json"))):
+    r = json.load(open(f))
+    d = os.path.dirname(f)
+    meta = json.load(open(os.path.join(d, "meta.json"))) if os.path.exists(os.path.join(d, "meta.json")) else {}
+    tag = "/".join(d.split("/")[-2:])
+    alarms = []
+    for x in r["runs"]:
+        if x["exit"] != 0:
+            alarms.append(x["property"] + (" (no-failing-input-found: " + "; ".join(x["not_discharged"])[:90] + ")" if x["nofail"] else " (" + ((x["first"] or {}).get("oracle") or "")[:60] + ")"))
+    rows.append("| %s | %s | %s | %s |" % (tag, (meta.get("title") or "")[:110].replace("|", "/"), ", ".join(meta.get("files") or []), "; ".join(alarms) or "none"))
+h = "| change | what it does | files | alarms raised by the 20 quick checks |\n|---|---|---|---|\n" + "\n".join(rows)
+h += "\n\n%d changes, %d without any alarm." % (len(rows), sum(1 for r in rows if r.endswith("| none |")))
+body = body.replace("@@HARMLESS@@", h)
 open(os.path.join(ROOT, "DESIGN.md"), "w").write(head + intro + body)
 print("DESIGN.md section 13 regenerated (%d lines)" % (intro + body).count("\n"))
